@@ -663,6 +663,49 @@ func (in *Interp) toDec(v Value) *DecV {
 
 func registerStubs(w *World) {
 	S := w.Stubs
+	// ---- sync: single-threaded interpretation, locks are no-ops ----
+	noop := func(in *Interp, fn *ssa.Function, a []Value) Value { return nil }
+	for _, n := range []string{"(*sync.Mutex).Lock", "(*sync.Mutex).Unlock", "(*sync.RWMutex).Lock", "(*sync.RWMutex).Unlock", "(*sync.RWMutex).RLock", "(*sync.RWMutex).RUnlock", "(*sync.WaitGroup).Add", "(*sync.WaitGroup).Done", "(*sync.WaitGroup).Wait"} {
+		S[n] = noop
+	}
+	S["(*sync.Mutex).TryLock"] = func(in *Interp, fn *ssa.Function, a []Value) Value { return True }
+	S["(*sync.Once).Do"] = func(in *Interp, fn *ssa.Function, a []Value) Value {
+		p := a[0].(PtrV)
+		st := p.R.Load().(*StructV)
+		// field 0 is the done flag (atomic.Uint32 or uint32 depending on version): use an engine-side mark
+		if st.Org == OrgGlobal || st.Org == OrgAST {
+			if in.monitorOn && in.underTest > 0 && in.parseDepth == 0 && !in.onceDone[st] {
+				in.Events = append(in.Events, Event{Kind: "sharedwrite", Msg: "sync.Once initialises shared state lazily", Where: in.where(), Stack: in.stackNames()})
+			}
+		}
+		if !in.onceDone[st] {
+			in.onceDone[st] = true
+			in.callFuncV(a[1].(*FuncV), nil)
+		}
+		return nil
+	}
+	S["(*sync.Pool).Get"] = func(in *Interp, fn *ssa.Function, a []Value) Value {
+		st := a[0].(PtrV).R.Load().(*StructV)
+		// the New field is the last field of sync.Pool
+		nf, _ := st.Fields[len(st.Fields)-1].(*FuncV)
+		if nf == nil {
+			return NilIface
+		}
+		return in.callFuncV(nf, nil)
+	}
+	S["(*sync.Pool).Put"] = noop
+	S["strings.Fields"] = func(in *Interp, fn *ssa.Function, a []Value) Value {
+		s, ok := in.concStr(a[0])
+		if !ok {
+			in.unsupported("strings.Fields on symbolic text")
+		}
+		fs := strings.Fields(s)
+		arr := &ArrayV{Elems: make([]Value, len(fs)), Org: in.org(), ET: in.W.TString}
+		for i, f := range fs {
+			arr.Elems[i] = ConcStr(f)
+		}
+		return SliceV{Arr: arr, Len: len(fs), Cap: len(fs)}
+	}
 	// ---- unicode/utf8 ----
 	S["unicode/utf8.DecodeRuneInString"] = func(in *Interp, fn *ssa.Function, a []Value) Value {
 		r, sz := in.decodeRune(a[0].(*StrV), 0)
